@@ -136,10 +136,16 @@ func runC01(r *Run, rng *Rng, tier string) error {
 		if g.Chance(25) {
 			dirs = append(dirs, "configurations")
 		}
+		if g.Chance(20) {
+			dirs = append(dirs, "rbac")
+		}
 		t := genTree(g, treeOpts{MaxLayers: 3, Directives: dirs, ResPerLayer: 4})
 		fam := "valid"
 		if hasDir(treeOpts{Directives: dirs}, "configurations") {
 			fam = "valid+configurations"
+		}
+		if hasDir(treeOpts{Directives: dirs}, "rbac") {
+			fam += "+rbac"
 		}
 		if g.Chance(20) {
 			twoFaults(g, t)
